@@ -49,7 +49,7 @@ P_PROTO = bytes([2, 170])         # P
 P_PKH = {0: bytes([6, 161, 159]), 1: bytes([6, 161, 161]), 2: bytes([6, 161, 164]), 3: bytes([6, 161, 166])}  # tz1..tz4
 P_KT1 = bytes([2, 90, 121])
 
-MANAGER_TAGS = {107: 'reveal', 108: 'transaction', 109: 'origination', 110: 'delegation'}
+MANAGER_TAGS = {107: 'reveal', 108: 'transaction', 109: 'origination', 110: 'delegation', 201: 'smart_rollup_add_messages'}
 PK_LEN = {0: 32, 1: 33, 2: 33, 3: 48}
 
 
@@ -139,6 +139,8 @@ def decode_manager_group(payload):
                 r.take(21)
             elif flag != 0:
                 raise DecodeError('bad delegate flag')
+        elif kind == 'smart_rollup_add_messages':
+            r.take(r.u32())
         c['size'] = r.i - start
         contents.append(c)
         rest = len(payload) - r.i
